@@ -219,6 +219,19 @@ let run_window g _obs =
   let line2 = out_strings downs3 ^ " " ^ dump_all s3 euis in
   (line1 ^ "|" ^ line2, s1, s3, eui)
 
+(* two devices sharing an address, one confirmed uplink each inside one receive window: the devices' operations
+   commute (Proof/CommuteProof.v), so the outcome is that of handling the frames one after the other *)
+let run_window2 g _obs =
+  let (s0, euis) = initial_server g in
+  let pre = if g "pre" = "" then [] else List.map parse_event (String.split_on_char '|' (g "pre")) in
+  let s1 = List.fold_left (fun s ev -> match ev with Sub m -> fst (submit s m) | _ -> s) s0 pre in
+  let frame_of tag = match parse_event (g tag) with Rx (rx, an, na) -> (rx, an, na) | _ -> failwith "frame" in
+  let (rx1, an1, na1) = frame_of "f1" and (rx2, an2, na2) = frame_of "f2" in
+  let (s2, o1) = rx_event e d s1 rx1 an1 na1 (n_of_int 1) in
+  let (s3, o2) = rx_event e d s2 rx2 an2 na2 (n_of_int 1) in
+  let downs_only = List.filter (function ODown _ -> true | _ -> false) (o1 @ o2) in
+  (out_strings downs_only ^ " " ^ dump_all s3 euis, s1, s3)
+
 let run_history g obs (judge : n list -> step list -> string) =
   let (netid, nonce_off) = match String.split_on_char ':' (g "cfg") with [a; b] -> (int_of_string a, b = "1") | _ -> failwith "cfg" in
   let apps = List.map hexn (String.split_on_char ',' (g "apps")) in
